@@ -1,4 +1,5 @@
-From Coq Require Import ExtrOcamlBasic.
+From Coq Require Import ExtrOcamlBasic ZArith.
 From MT Require Import Wsq.WsqModel.
 Extraction Language OCaml.
-Separate Extraction step sched_step finished label obs result init_state.
+Separate Extraction step sched_step finished label obs result init_state
+  Z.add Z.mul Z.opp Z.div_eucl.
